@@ -2,6 +2,7 @@ package props
 
 import (
 	"math/big"
+	"strings"
 
 	sdkmath "cosmossdk.io/math"
 	"encoding/json"
@@ -42,6 +43,9 @@ func TestReplay(t *testing.T) {
 	}
 	prod(t)
 	doc, err := kit.Replay(path)
+	if err != nil && strings.HasPrefix(err.Error(), "harness:") {
+		t.Fatalf("HARNESS ERROR %s (%s): %v", doc.Property, doc.Test, err)
+	}
 	if err != nil {
 		if cf := os.Getenv("VERIF_CASEFILE"); cf != "" {
 			out := map[string]any{"property": doc.Property, "test": doc.Test, "case": doc.Case, "message": err.Error()}
